@@ -12,7 +12,7 @@ use std::io::ErrorKind;
 pub static DEF: PropDef = PropDef {
     id: "C05",
     level: "exploration",
-    rule: "each case: one input (valid writer/reference output, truncated, 1-3 mutations, adversarial header catalogue entry — zero-length numerics, 9-byte numerics, 8-byte ids/sizes, all-ones sizes of every width on every element type, first byte 0x00 — random bytes, mid-document suffix) x a random configuration (8 tolerance subsets, buffered-master subset, capacity in {default,0,1,2,7,8,15,16,17,64,len-1,len,len+1}, size limit in {5,100,4096,1 MiB}, EOF closing on/off) x a scripted source (random short reads, poisoned buffer tails) x a random interleaving of next()/try_recover(). Every API call runs under catch_unwind with a logical step budget (hook H1) and a source read budget; item count must stay <= 2*len+2*depth+16; after the first None with the source exhausted 8 further calls must return None; total steps must stay within 256*(len+items+64). Then the same parse is repeated with an I/O error injected at a read index (every index for inputs <= 64 bytes in thorough): the first error seen must be ReadError carrying the injected kind and message, and the Ok items before it a prefix of the fault-free run. Four fixed probes per run parse, in a child process on a thread with a 256 KiB stack, very long runs (20 000 quick / 100 000 thorough) of sibling buffered masters (known and unknown size) and deep nestings (4 000 / 20 000 levels) of a self-nesting master (unbuffered, and inside a buffered root): input-controlled recursion shows up as a crash of the child. Thorough tier only: four runs of a small single-threaded workload (writer, iterator with short reads and try_recover, tools, async next() loop) under `cargo +nightly miri run` (tree borrows) as a supplementary undefined-behaviour check. distinct = (input-kind class, first-error kind, config class, API-sequence class); non-trivial iff the input is not a plain valid document or the config is non-default.",
+    rule: "each case: one input (valid writer/reference output, truncated, 1-3 mutations, adversarial header catalogue entry — zero-length numerics, 9-byte numerics, 8-byte ids/sizes, all-ones sizes of every width on every element type, first byte 0x00 — random bytes, mid-document suffix) x a random configuration (8 tolerance subsets, buffered-master subset, capacity in {default,0,1,2,7,8,15,16,17,64,len-1,len,len+1}, size limit in {5,100,4096,1 MiB}, EOF closing on/off) x a scripted source (random short reads, poisoned buffer tails, in a quarter of the cases 1-3 one-shot empty reads — Ok(0), then data again on the very next read — at arbitrary byte positions) x a random interleaving of next()/try_recover(). Every API call runs under catch_unwind with a logical step budget (hook H1) and a source read budget; item count must stay <= 2*len+2*depth+16; after the first None with the source exhausted 8 further calls must return None; total steps must stay within 256*(len+items+64). Then the same parse is repeated with an I/O error injected at a read index (every index for inputs <= 64 bytes in thorough): the first error seen must be ReadError carrying the injected kind and message, and the Ok items before it a prefix of the fault-free run; the error is transient (only that one read fails), and up to 24 further next() calls with one try_recover() in between must not panic or exceed their budgets. Four fixed probes per run parse, in a child process on a thread with a 256 KiB stack, very long runs (20 000 quick / 100 000 thorough) of sibling buffered masters (known and unknown size) and deep nestings (4 000 / 20 000 levels) of a self-nesting master (unbuffered, and inside a buffered root): input-controlled recursion shows up as a crash of the child. Thorough tier only: four runs of a small single-threaded workload (writer, iterator with short reads and try_recover, tools, async next() loop) under `cargo +nightly miri run` (tree borrows) as a supplementary undefined-behaviour check. distinct = (input-kind class, first-error kind, config class, API-sequence class); non-trivial iff the input is not a plain valid document or the config is non-default.",
     assumptions: &["the default 4 GB size limit is only used with valid documents (a legitimate multi-GB allocation per worker would exhaust the machine); C17 covers the default limit with curated sizes", "`no hang` is decided as bounded logical progress (hook H1 ticks + source read budget); a pure-CPU loop without a tick would only trip the wall-clock watchdog (inconclusive)"],
     cases_quick: 400_000,
     cases_thorough: 5_000_000,
@@ -171,7 +171,16 @@ fn run(c: &mut Case) {
     let cfg = random_cfg(&mut c.rng, &inp);
     let len = inp.bytes.len();
     let depth = inp.spec.elems.iter().map(|e| e.path.len()).max().unwrap_or(0) + 1;
-    let src = random_source(&mut c.rng, &inp.bytes);
+    let mut src = random_source(&mut c.rng, &inp.bytes);
+    // a quarter of the sources are resumable ones seen mid-call: at 1-3 arbitrary positions (inside ids, size fields,
+    // payloads) one read answers Ok(0) and the very next read delivers data again. Not under the default limit (a
+    // misaligned continuation may legitimately ask for gigabytes there).
+    if cfg.max_size != MaxSz::Default && len > 0 && c.rng.chance(1, 4) {
+        let n = c.rng.urange(1, 3);
+        let blips: Vec<usize> = (0..n).map(|_| c.rng.usize_below(len)).collect();
+        src = src.with_blips(blips);
+        c.count("sources_with_one_shot_empty_reads");
+    }
     let p_recover_after_err = *c.rng.pick(&[0u64, 50, 100]);
     // with the default 4 GB limit a misaligned parse (after a gratuitous try_recover) may legitimately allocate GBs
     let p_recover_random = if cfg.max_size == MaxSz::Default { 0 } else { *c.rng.pick(&[0u64, 0, 5]) };
@@ -360,6 +369,7 @@ struct Plain {
 }
 
 fn plain_run(mut src: ScriptedRead, cfg: &RCfg, len: usize, fault: Option<(usize, ErrorKind, String)>) -> Plain {
+    let fault_given = fault.is_some();
     if let Some((k, kind, msg)) = fault {
         src = src.with_fault(k, kind, msg);
     }
@@ -379,6 +389,32 @@ fn plain_run(mut src: ScriptedRead, cfg: &RCfg, len: usize, fault: Option<(usize
             Ev::Caught(cg) => {
                 caught = Some(cg);
                 break;
+            }
+        }
+    }
+    // the injected error is transient (one read fails, the next succeeds): a caller that keeps going must not be
+    // punished with a panic or a hang — a few more next() calls and a try_recover() in between
+    // (not under the 4 GB default limit: after a failed payload read the unchanged iterator resumes behind the header, and
+    // a parse that reads payload bytes as headers may then legitimately ask for gigabytes)
+    if fault_given && caught.is_none() && cfg.max_size != MaxSz::Default && matches!(first_err, Some(ErrRec::Read { .. })) {
+        let mut more = 0usize;
+        for round in 0..24 {
+            it.get_mut().begin_api_call();
+            if round == 3 {
+                if let Err(cg) = recover_ev(&mut it, step_budget(len, oks.len() + more)) {
+                    caught = Some(cg);
+                    break;
+                }
+                continue;
+            }
+            match next_ev(&mut it, step_budget(len, oks.len() + more)) {
+                Ev::Item(..) => more += 1,
+                Ev::Err(_) => {}
+                Ev::None => break,
+                Ev::Caught(cg) => {
+                    caught = Some(cg);
+                    break;
+                }
             }
         }
     }
